@@ -56,6 +56,7 @@ PROPS = {
                      J("rcu.freeze", "wl_rcu", 60000, 1500000, mode="freeze", elem=0),
                      J("cow.freeze", "wl_cow", 60000, 1500000, mode="freeze")]},
     "C17": {"jobs": [J("soh.std", "wl_soh", 150000, 4000000, mode="std")]},
+    "C18": {"jobs": [J("dobj", "wl_dobj", 100000, 2500000)]},
     "C19": {"jobs": [J("trip.explicit", "wl_trip", 200000, 5000000, mode="explicit"),
                      J("trip.static", "wl_trip", 6000, 150000, mode="static", fork_each=1)]},
 }
